@@ -1284,7 +1284,7 @@ def gen_from_fn(lhs, rhs, ctx):
     def gen():
         yield from lhs
 
-        made = lhs
+        made = list(lhs)  # (a list of our own: it grows with every item)
 
         while True:
             next_item = safe_apply(rhs, *made, ctx=ctx)
